@@ -50,16 +50,19 @@ def run(ctx):
         key_fn=key_fn,
         translators=[("gofn-mp", "GoFnMpGen.v"), ("lockflow", "LockFlowGen.v"), ("bodysinks", "BodySinksGen.v"),
                      ("redirclient", "RedirClientGen.v"), ("grpcstatus", "GrpcStatusGen.v"),
-                     ("sampleacquire", "SampleAcquireGen.v")],
+                     ("sampleacquire", "SampleAcquireGen.v"), ("grpcctx", "GrpcCtxGen.v")],
         # Properties/C19_wire.v: announced-versus-arriving body sizes and the lock-flow theorems (extra obligations);
         # Gen/LockFlow_bridge.v: the check evaluated on the skeletons re-read from lib/netutil/dial.go
         # Gen/BodySinks_bridge.v: every place of the http-family gun packages that consumes a body uses one of the two modelled sinks,
         # and none looks at the announced length
+        # Properties/C19_grpctime.v: the grpc gun against a silent target; Gen/GrpcCtx_bridge.v: every InvokeRpc of the gRPC guns
+        # is made with a context that has a WithTimeout(effective timeout) on its spine
         # Properties/C19_redirect.v: targets answering with redirects (any graph; the client's loop ends under the default policy);
         # Gen/RedirClient_bridge.v: every net/http Client literal of the gun packages leaves CheckRedirect to the default
         bridge_files=["Gen/GoFnMp_bridge.v", "Gen/LockFlow_bridge.v", "Gen/BodySinks_bridge.v", "Properties/C19_wire.v",
                       "Gen/RedirClient_bridge.v", "Properties/C19_redirect.v", "Properties/C19_grpcscn.v",
-                      "Gen/SampleAcquire_bridge.v", "Properties/C19_recycle.v", "Properties/C19_grpctime.v"],
+                      "Gen/SampleAcquire_bridge.v", "Properties/C19_recycle.v", "Properties/C19_grpctime.v",
+                      "Gen/GrpcCtx_bridge.v"],
         trusted=[
             "extraction: ExtrOcamlBasic only; OCaml driver ocaml/C19/main.ml (incl. its copy of str.ParseStringFunc for modifier text) + ocaml/common/conv.ml",
             "correspondence harness harness/cmd/hC19 (real postprocessors under recover; scripted TCP target; real config decoder, "
